@@ -16,7 +16,7 @@ from . import c13
 PROPERTY = "C17"
 LEVEL = "exploration"
 RULE = (
-    "objects: every example file that reads, the generated family and its one-step mutations (duplicated / blank / "
+    "objects: LASFiles built from scratch (default, with curves, with NaN / None header values on items that have units), every example file that reads, the generated family and its one-step mutations (duplicated / blank / "
     "case-variant mnemonics, text and float curves), read with mnemonic_case upper and preserve and additionally after an in-memory crop of the index, and every section "
     "state reachable by an operation history of depth <= 2 (thorough 3) from C13's seven roots (stale suffixes, literal "
     "'A:1' names included); copiers: pickle protocols 0..5 and copy.deepcopy applied to the LASFile, each section and "
@@ -55,10 +55,32 @@ def points(tier):
             pts.append(["file", tier, i, case])
         # the same object after an in-memory edit of the index (first sample dropped from every curve)
         pts.append(["file", tier, i, "upper", "crop-top"])
+    for name in SCRATCH:
+        pts.append(["scratch", name])
     depth = 2 if tier == "quick" else 3
     for root in c13.ROOTS:
         pts.append(["state", root, [], depth])
     return pts
+
+
+def _scratch(name):
+    las = lasio.LASFile()
+    if name == "default":
+        return las
+    las.append_curve("DEPT", np.array([1.0, 2.0, 3.0]), unit="m")
+    las.append_curve("GR", np.array([np.nan, 5.5, 6.5]), unit="gapi")
+    if name == "nan-header":
+        # values that are the float NaN object (what LASFile() itself uses for STRT/STOP/STEP), None and ''
+        las.params.append(lasio.HeaderItem("BHT", "degC", np.nan, "not measured"))
+        las.params.append(lasio.HeaderItem("MUD", "kg/m3", None, "none"))
+        las.params.append(lasio.HeaderItem("RUN", "", float("nan"), "another NaN object"))
+        las.well["WELL"].value = np.nan
+        las.well["FLD"].unit = "x"
+        las.well["FLD"].value = np.nan
+    return las
+
+
+SCRATCH = ["default", "curves", "nan-header"]
 
 
 def full_tag(las):
@@ -266,6 +288,9 @@ def check_state_family(root, depth, pt, only=None):
 
 
 def check_point(pt, only=None):
+    if pt[0] == "scratch":
+        v, nt, oc, counters, evals = check_las(lambda: _scratch(pt[1]), "scratch:" + pt[1], pt)
+        return v, (repr(pt), 1), oc, counters, evals
     if pt[0] == "file":
         name, text = _inputs(pt[1])[pt[2]]
         case = pt[3]
@@ -305,4 +330,4 @@ def run_unit(unit):
     pt = _P[tier][unit["i"]]
     vio, nt, oc, counters, evals = check_point(pt)
     return {"evals": evals, "nontrivial": nt[1] if nt else 0, "outcomes": {oc: 1}, "violations": vio,
-            "samples": [{"point": pt if pt[0] == "state" else [pt[0], _inputs(pt[1])[pt[2]][0], pt[3]]}], "extra": counters}
+            "samples": [{"point": pt if pt[0] in ("state", "scratch") else [pt[0], _inputs(pt[1])[pt[2]][0], pt[3]]}], "extra": counters}
